@@ -12,6 +12,25 @@ from . import env, gen, world as worldmod
 PROP_INDEX = {f"C{i:02d}": i for i in range(1, 21)}
 
 
+SYSTEMATIC_BASE = 5_000_000
+EDIT_KINDS = ["add_node", "delete_node", "add_edge", "delete_edge", "swap", "update_attrs", "paint"]
+
+
+_WORDS: dict = {}
+
+
+def systematic_words(max_len: int = 6) -> list:
+    """All words over {E,U,R} of length 1..max_len (3+9+...+729 = 1092 for 6)."""
+    import itertools
+
+    if max_len in _WORDS:
+        return _WORDS[max_len]
+    out = _WORDS.setdefault(max_len, [])
+    for n in range(1, max_len + 1):
+        out += ["".join(w) for w in itertools.product("EUR", repeat=n)]
+    return out
+
+
 def make_case(prop: str, seed: int, idx: int, tier: str) -> dict:
     """Pure function of (prop, seed, idx, tier): the explicit world and operation list."""
     run_seed = env.splitmix64(seed, PROP_INDEX.get(prop, 0), idx)
@@ -19,7 +38,22 @@ def make_case(prop: str, seed: int, idx: int, tier: str) -> dict:
     cfg = gen.swarm(rng, prop, tier)
     cons = gen.world_constraints(prop)
     w = worldmod.generate(rng, cons)
-    ops = gen.gen_schedule(rng, cfg)
+    if idx >= SYSTEMATIC_BASE:
+        # systematic layer of C02: the idx-th {E,U,R}-word, edits drawn from the seeded
+        # stream; an edit that the state refuses is retried with up to 3 other edits so the
+        # executed word equals the intended one in most runs (the executed word is what
+        # the evidence counts)
+        word = systematic_words()[idx - SYSTEMATIC_BASE]
+        cfg["f1"] = 0.0
+        ops = []
+        for ch in word:
+            if ch == "E":
+                ops.append({"op": "first_accepted", "tries": [gen.gen_op(rng, cfg, rng.choice(EDIT_KINDS)) for _ in range(4)] + [{"op": "update_attrs", "n": ["any", rng.randrange(64)], "key": "score", "val": round(rng.random(), 3)}]})
+            else:
+                ops.append({"op": "undo" if ch == "U" else "redo"})
+        cfg["steps"] = len(ops)
+    else:
+        ops = gen.gen_schedule(rng, cfg)
     return {
         "harness": env.HARNESS_VERSION, "property": prop, "seed": seed, "idx": idx, "run_seed": run_seed,
         "tier": tier, "props": [prop], "opts": {"own": prop, "tier": tier, "query_every": 1 if tier == "thorough" else 5},
